@@ -77,6 +77,9 @@ func verifSetExtensions(h *Header, kind, ne int, full bool) verifExtModel {
 			verifAssume(o != id)
 		}
 		val := verifBytes("ext.val", verifPick("ext.len", tab))
+		if len(val) == 0 && verifCase("ext.nil", 0, 1) == 1 {
+			val = nil // a nil value is as legal as an empty one
+		}
 		err := h.SetExtension(id, val)
 		verifAssert("setup.setext", err == nil)
 		m.ids = append(m.ids, id)
